@@ -48,6 +48,13 @@ def main() -> int:
         print("patch does not apply:", r.stderr, file=sys.stderr)
         return 2
     out = {"target": a.target, "tier": a.tier, "checks": {}}
+    # evidence and replays belong to runs on the unchanged tree: keep them aside while a seeded change is applied
+    import shutil
+    import tempfile
+    keep = Path(tempfile.mkdtemp(prefix="seeded-keep-"))
+    for sub in ("evidence", "replays"):
+        if (VERIF / sub).exists():
+            shutil.copytree(VERIF / sub, keep / sub)
     try:
         import os
         env = dict(os.environ)
@@ -78,6 +85,11 @@ def main() -> int:
             sh("git", "-C", str(REPO), "checkout", "--", ".")
             sh("git", "-C", str(REPO), "clean", "-fdq", "refurb", "docs", "test")
         assert clean(), "/repo not restored"
+        for sub in ("evidence", "replays"):
+            if (keep / sub).exists():
+                shutil.rmtree(VERIF / sub, ignore_errors=True)
+                shutil.copytree(keep / sub, VERIF / sub)
+        shutil.rmtree(keep, ignore_errors=True)
     key = f"result-{a.tier}.json"
     (d / key).write_text(json.dumps(out, indent=1) + "\n")
     return 0
